@@ -216,6 +216,152 @@ PROPS["C12"] = dict(
 )
 
 
+PROPS["C15"] = dict(
+    title="Global symbol tables match the declarations; first declaration wins",
+    projection="globals",
+    monitor="C15",
+    domain="all",
+    rule="corpus + generated programs incl. duplicate names and declarations that fail their checks; non-trivial = at "
+         "least three top-level declarations and either a duplicate-name or type-not-found diagnostic or >= 2 registered "
+         "kinds of entities; distinct = distinct program texts",
+    nontrivial=lambda prog, out, monline="": out.count("(FunctionDeclaration ") + out.count("(Constant (") + out.count("(Types (") >= 3,
+    assumptions=["the body mirror inside FunctionDeclaration instructions is compared in place by the harness (body-ok flag), not modelled"],
+)
+
+
+def _fn_names(tree):
+    return [str(t[1][1]) for t in tree[1:] if t[0] == "fn"]
+
+
+def _errs(t):
+    return [ser(e) for e in t[1][1:]]
+
+
+def cross_C16(run):
+    """Implementation outputs of a program and of its permutations (constants keep their order)."""
+    alarms, pairs, exhaustive_bases = [], 0, set()
+    for i, m in enumerate(run.metas):
+        if m.get("stream") != "perm":
+            continue
+        b = m["base"]
+        ob, oq = run.impl[b], run.impl[i]
+        if ob.startswith("(panic") or oq.startswith("(panic"):
+            continue
+        tb, tq = parse(ob), parse(oq)
+        pb, pq = parse(run.programs[b]), parse(run.programs[i])
+        pairs += 1
+        if m.get("all"):
+            exhaustive_bases.add(b)
+        why = None
+        if (len(tb[1]) == 1) != (len(tq[1]) == 1):
+            why = "verdict differs"
+        elif sorted(_errs(tb)) != sorted(_errs(tq)):
+            why = "error multisets differ"
+        elif tb[2] != tq[2] or tb[3] != tq[3] or tb[4] != tq[4]:
+            why = "global tables differ"
+        else:
+            fb = dict(zip(_fn_names(pb), fns_of(tb)))
+            fq = dict(zip(_fn_names(pq), fns_of(tq)))
+            for name in fb:
+                if fb[name] != fq.get(name):
+                    why = "stack / block tree of function %s differs" % name
+                    break
+        if why:
+            alarms.append((i, "C16: permutation of program #%d: %s" % (b, why)))
+    return alarms, {"pairs": pairs, "bases_with_all_permutations": len(exhaustive_bases)}
+
+
+def _split_stub_errors(errs):
+    """errors of v_0 = D ++ S_1 ++ ... ++ S_n, S_j = ArgDup* ++ [ValueNotFound __stub_j; ReturnNotFound]."""
+    marks = [k for k, e in enumerate(errs) if e[1] == "ValueNotFound" and str(e[2]).startswith("__stub_")]
+    segs = []
+    for k in marks:
+        st = k
+        while st > 0 and errs[st - 1][1] == "FunctionArgumentNameDuplicated" and (not segs or st - 1 >= segs[-1][1]):
+            st -= 1
+        segs.append((st, k + 2))
+    return segs
+
+
+def cross_C17(run):
+    """Every function analysed next to stub bodies: same root block; the program's error list is the
+    declaration errors followed by each function's own body errors in source order."""
+    alarms, groups = [], 0
+    by_base = {}
+    for i, m in enumerate(run.metas):
+        if m.get("stream") == "stub":
+            by_base.setdefault(m["base"], {})[m["keep"]] = i
+    for b, var in by_base.items():
+        outs = [run.impl[b]] + [run.impl[i] for i in var.values()]
+        if any(o.startswith("(panic") or o.startswith("(missing") for o in outs) or None not in var:
+            continue
+        groups += 1
+        tb = parse(run.impl[b])
+        t0 = parse(run.impl[var[None]])
+        e0 = t0[1][1:]
+        segs = _split_stub_errors(e0)
+        nfn = len(fns_of(tb))
+        why = None
+        if len(segs) != nfn:
+            continue  # stub markers not all present (e.g. a parameter named like the marker): not judged
+        D = e0[:segs[0][0]] if segs else e0
+        bodies = []
+        for j in range(nfn):
+            if j not in var:
+                why = "variant %d missing" % j
+                break
+            tj = parse(run.impl[var[j]])
+            ej = tj[1][1:]
+            pre = e0[:segs[j][0]]
+            post = e0[segs[j][1]:]
+            if ej[:len(pre)] != pre or (post and ej[len(ej) - len(post):] != post) or len(ej) < len(pre) + len(post):
+                why = "errors of the other (stub) bodies changed when function %d got its real body" % j
+                break
+            bodies.append(ej[len(pre):len(ej) - len(post)])
+            if fns_of(tj)[j] != fns_of(tb)[j]:
+                why = "stack / block tree of function %d depends on the other bodies" % j
+                break
+            if tj[2] != tb[2] or tj[3] != tb[3] or tj[4] != tb[4] or tj[5] != tb[5]:
+                why = "global declarations depend on a body"
+                break
+        if not why:
+            expect = D + [e for bsegs in bodies for e in bsegs]
+            if expect != tb[1][1:]:
+                why = "error list is not declaration errors ++ per-function body errors in source order"
+        if why:
+            alarms.append((b, "C17: " + why))
+    return alarms, {"groups": groups}
+
+
+PROPS["C16"] = dict(
+    title="Results do not depend on the textual order of top-level declarations",
+    projection="full",
+    monitor=None,
+    cross=cross_C16,
+    domain="all",
+    rule="programs without duplicate struct/constant/function names, each paired with permutations of its top-level "
+         "statements that keep the constants' relative order (sampled; all permutations for programs with <= 5 statements "
+         "in the thorough tier); the implementation's outputs are compared pairwise (verdict, error multiset, tables, every "
+         "function's stack and block tree); non-trivial = a compared pair; distinct = distinct permuted program texts",
+    nontrivial=lambda prog, out, monline="": False,
+    assumptions=["C16's theorem relates two ROk runs of the model; panicking runs are not related across reorderings"],
+)
+
+PROPS["C17"] = dict(
+    title="Each function body is analysed independently of the other bodies",
+    projection="full",
+    monitor=None,
+    cross=cross_C17,
+    domain="all",
+    rule="programs with 2..5 functions, each run as is, with all bodies replaced by a marker stub, and with all bodies "
+         "but one replaced; the implementation's outputs must show the same root block for the kept function and the "
+         "error list must split as declaration errors ++ per-function body errors; non-trivial = one such group; "
+         "distinct = distinct base programs",
+    nontrivial=lambda prog, out, monline="": False,
+    assumptions=["source lints: errors only appended through add_error, globals mutated only by the declaration passes"],
+)
+
+
 # ------------------------------------------------------------------------------------------------
 # source lints (DESIGN.md §6.2)
 
@@ -361,6 +507,14 @@ def analyse(prop, run):
                 if len(samples) < 3 and len(prog) < 1500:
                     samples.append({"program": prog, "stream": stream,
                                     "projected_output": _short(impl, spec["projection"])})
+    cross_stats = {}
+    if spec.get("cross"):
+        calarms, cross_stats = spec["cross"](run)
+        alarms += calarms
+        seen_nt = set(range(cross_stats.get("pairs", 0) + cross_stats.get("groups", 0)))
+        for i, m in enumerate(run.metas):
+            if len(samples) < 2 and m.get("stream") in ("perm", "stub") and len(run.programs[i]) < 1200:
+                samples.append({"derived_program": run.programs[i], "meta": m, "base_program": run.programs[m["base"]][:1200]})
     if not samples and run.programs:
         samples.append({"program": run.programs[0][:1500], "stream": run.metas[0].get("stream", "?")})
     kinds = {}
@@ -373,7 +527,7 @@ def analyse(prop, run):
                              "panics": sum(1 for o in run.impl if o.startswith("(panic")),
                              "error_kinds": kinds,
                              "mean_output_bytes": int(sum(len(o) for o in run.impl) / max(1, len(run.impl)))},
-            "monitor": {"true": mon_true, "false": mon_false, "not_applicable": mon_na}}
+            "monitor": {"true": mon_true, "false": mon_false, "not_applicable": mon_na}, "cross": cross_stats}
 
 
 def _short(impl, proj):
@@ -396,6 +550,10 @@ def alarm_on(prop, text):
         return not (cls and cls(text, impl[0], mon[0]))
     extra = spec.get("extra_check")
     return bool(extra and extra(text, impl[0], mon[0]))
+
+
+def cross_alarm_on(prop, base_text, derived_text, meta):
+    return False
 
 
 def search(prop, seed):
